@@ -189,10 +189,13 @@ def _enumerate_type(args):
             vals = []
             members = [v for _, v in c["members"]] if c["kind"] == "enum" else [0, 1]
             for v in members:
-                setattr(m, name, bool(v) if c["kind"] == "bool" else v)
-                r = m.get_raw(name)
-                m.set_raw(name, r)
-                vals.append([v, int(r), val(getattr(m, name))])
+                try:
+                    setattr(m, name, bool(v) if c["kind"] == "bool" else v)
+                    r = int(m.get_raw(name))
+                    m.set_raw(name, r)
+                    vals.append([v, r, val(getattr(m, name))])
+                except Exception:
+                    vals.append([v, -777777, -777777])
                 n += 1
             out.append({"op": "members", "t": t, "i": i, "vals": vals})
             continue
@@ -219,16 +222,28 @@ def _enumerate_type(args):
                         m = m.clone()
                 ws, comp = _windows(lo, hi, complete, rnd)
                 # pure queries first (no assignment in between), then the assignment loop
-                patends = [int(ctl_obj.pattern_value(m, lo)), int(ctl_obj.pattern_value(m, hi))]
-                pat = [int(ctl_obj.pattern_value(m, v)) for v in range(lo, hi + 1)] if comp else None
+                def pv(v):
+                    try:
+                        return int(ctl_obj.pattern_value(m, v))
+                    except Exception:
+                        return -777777
+                patends = [pv(lo), pv(hi)]
+                pat = [pv(v) for v in range(lo, hi + 1)] if comp else None
                 raws, back = [], []
                 for a, b in ws:
                     for v in range(a, b + 1):
-                        setattr(m, name, v)
-                        r = m.get_raw(name)
-                        m.set_raw(name, r)
-                        raws.append((v, int(r)))
-                        back.append((v, val(getattr(m, name))))
+                        try:
+                            setattr(m, name, v)
+                            r = int(m.get_raw(name))
+                        except Exception:
+                            r = -777777          # an in-range value that cannot be assigned / encoded: never the expected raw value
+                        try:
+                            m.set_raw(name, r)
+                            bk = val(getattr(m, name))
+                        except Exception:
+                            bk = -777777
+                        raws.append((v, r))
+                        back.append((v, bk))
                         n += 1
                 out.append({"op": "raws", "t": t, "i": i, "u": u, "lo": lo, "hi": hi, "complete": comp, "via": via,
                             "raws": runs(raws), "back": runs(back), "pat": pat, "patends": patends})
